@@ -75,7 +75,7 @@ impl State {
                     let fpr = crate::tape::fp64(f.sig.as_bytes());
                     let path = self.dir.join("found").join(format!("{}-fuzz-{:016x}.json", sub.name, fpr));
                     if !path.exists() {
-                        let v = json!({"property": self.prop.id, "subcheck": sub.name, "input_hex": hex::encode(data), "signature": f.sig, "detail": f.detail});
+                        let v = json!({"property": self.prop.id, "subcheck": sub.name, "tier": "thorough", "input_hex": hex::encode(data), "signature": f.sig, "detail": f.detail});
                         let _ = std::fs::write(&path, serde_json::to_string_pretty(&v).unwrap() + "\n");
                     }
                 }
